@@ -16,6 +16,28 @@ Reference (never calls quara to decide):
   free entries; every other function (inverse conversion, stacked forms,
   index maps, gradients, to_var, generate_from_var) is then judged against
   that one correspondence, which is exactly what the property states.
+
+History / combination steps (the property holds for every call, whatever the objects did before; all verdicts come
+from the oracles above, keys of verdicts that only a history can produce end in the name of the step):
+* objects (run_object_history, every case of the conversion shards, own random stream): three live objects of one class
+  and shape (two with equal configuration and non-default constructor options but other data, one with the other
+  flag / outcome count) plus one on another system are asked alternately; the vectors the library returned go back
+  into generate_from_var after the other objects were asked (":interleaved"); static forms with explicit and default
+  flag alternate; objects reached through arithmetic, copy() (":via-copy"), generate_zero_obj() / generate_origin_obj()
+  (":via-zero-obj", ":via-origin-obj"); the same questions again after the public setters (":second-call") and
+  "the vector handed out earlier still holds what it held"; one template serving several generate_from_var calls with
+  and without explicit options (":re-used-template"); everything again after the public mutator set_zero()
+  (":after-set_zero").
+* sets (run_setq_case: member lists replaced through the setters, ":after-member-list-replaced"; run_setq_history, small
+  sets): a second live set with the same member counts but other member sizes, half of them filled through the
+  setters (":second-set-same-member-counts"), single queries alternating between the two sets, lists replaced by
+  lists of the SAME length (":after-same-length-list-replaced"), the set returned by set_qoperations_from_var_total
+  asked everything (":rebuilt-set", also after a setter on it).
+* tomography classes (numvar_history): num_variables against the objects the tomography hands out
+  (convert_var_to_qoperation twice with different vectors, the empty estimation object, its origin object, its
+  operation set; ":via-tomography"), a sibling of the same class with the other flag / outcome count, non-default
+  options and an explicit schedule list built and asked while the first is alive (":sibling-other-flag"), the first
+  again (":second-call"), tomography objects of earlier cases again (":re-used-object").
 """
 import inspect
 import math
@@ -32,7 +54,10 @@ RULE = ("(a) index part: every configuration type x flag x m in 2..5 x shape S1,
         "non-physical objects off the constraint) per type x shape x flag x m, distinct by (type,shape,flag,m,rounded vector); "
         "(c) SetQOperations: random mixes of 0-3 states/gates/povms/mprocesses with mixed flags, shapes and outcome counts, "
         "every total index and every local index; (d) num_variables of the four tomography classes for every "
-        "shape x flag x m. All cases are non-trivial (flag True inserts implied entries, flag False exercises identity "
+        "shape x flag x m. (e) history / combination steps on the same oracles: objects asked alternately and again, reached "
+        "through copy / zero / origin objects / arithmetic, non-default constructor options, after the public setters and after "
+        "set_zero; sets with equal member counts, lists replaced by lists of the same length, rebuilt sets; tomography "
+        "objects asked through the objects they hand out, siblings with the other flag, earlier objects again. All cases are non-trivial (flag True inserts implied entries, flag False exercises identity "
         "layout; m>=3 and d>2 exercise the index arithmetic)")
 EXHAUSTIVE = {"quick": True, "thorough": True}
 EXHAUSTIVE_SCOPE = ("index converters (var index -> entry, entry -> var index), calc_gradient and the placement of every variable: "
@@ -75,6 +100,8 @@ REQUIRED_ORACLES = [
     "roundtrip.var-obj-var", "roundtrip.obj-var-obj", "commute.var-to-stacked", "commute.stacked-to-var",
     "setq.bijection", "setq.rebuild-reproduces-members", "setq.out-of-range-raises",
     "num_variables.equals-len-to_var", "num_variables.reference-count",
+    "history.second-call-same-var", "history.held-result-unchanged", "history.via-copy", "history.via-zero-obj", "history.via-origin-obj",
+    "history.re-used-template", "history.after-set_zero",
 ]
 MIN_EVALS = {"quick": 500000, "thorough": 1000000}
 WATCHDOG = {"quick": 900, "thorough": 3600}
@@ -359,12 +386,12 @@ class Judge:
         return s
 
     # -- generic comparisons
-    def cmp_stacked(self, label, t, d, m, flag, got, want, scale, info):
-        """free entries must be copies, implied entries must be what the constraint implies"""
+    def cmp_stacked(self, label, t, d, m, flag, got, want, scale, info, tag=""):
+        """free entries must be copies, implied entries must be what the constraint implies (tag = history suffix)"""
         ctx = self.ctx
         kbase = f"{label}:{t}:{fl(flag)}"
         if got is None or got.shape != want.shape:
-            ctx.truth(f"{label}.shape", False, key=f"{kbase}:shape", info=info)
+            ctx.truth(f"{label}.shape", False, key=f"{kbase}:shape" + tag, info=info)
             return
         ctx.truth(f"{label}.shape", True)
         diff = np.abs(got - want)
@@ -374,24 +401,24 @@ class Judge:
             diff = diff.copy()
             diff[ip] = 0.0
             mm = max(1, m)
-            ctx.num(f"{label}.implied", e_imp / (scale * mm), TOL_PASS, TOL_FAIL, key=f"{kbase}:implied-entries", info=info)
+            ctx.num(f"{label}.implied", e_imp / (scale * mm), TOL_PASS, TOL_FAIL, key=f"{kbase}:implied-entries" + tag, info=info)
         e_free = float(np.max(diff)) if diff.size else 0.0
-        ctx.num(f"{label}.free", e_free / scale, TOL_PASS, TOL_FAIL, key=f"{kbase}:free-entries", info=info)
+        ctx.num(f"{label}.free", e_free / scale, TOL_PASS, TOL_FAIL, key=f"{kbase}:free-entries" + tag, info=info)
 
-    def cmp_var(self, label, t, flag, got, want, info):
+    def cmp_var(self, label, t, flag, got, want, info, tag=""):
         ctx = self.ctx
         kbase = f"{label}:{t}:{fl(flag)}"
         g = as_vec(got) if isinstance(got, np.ndarray) else None
         if g is None or g.shape != want.shape:
-            ctx.truth(f"{label}.length", False, key=f"{kbase}:length", info=dict(info, got_len=None if g is None else int(g.size), want_len=int(want.size)))
+            ctx.truth(f"{label}.length", False, key=f"{kbase}:length" + tag, info=dict(info, got_len=None if g is None else int(g.size), want_len=int(want.size)))
             return
         ctx.truth(f"{label}.length", True)
         scale = max(1.0, float(np.max(np.abs(want))) if want.size else 1.0)
         err = float(np.max(np.abs(g - want))) / scale if want.size else 0.0
-        ctx.num(f"{label}.values", err, TOL_PASS, TOL_FAIL, key=f"{kbase}:values", info=info)
+        ctx.num(f"{label}.values", err, TOL_PASS, TOL_FAIL, key=f"{kbase}:values" + tag, info=info)
 
     # -- var -> object direction (result given as flat stacked vector, or None if malformed)
-    def judge_from_var(self, label, t, c_sys, var, flag, got_flat, exc=None):
+    def judge_from_var(self, label, t, c_sys, var, flag, got_flat, exc=None, tag=""):
         ctx = self.ctx
         flag = bool(flag)
         v = as_vec(var)
@@ -405,7 +432,7 @@ class Judge:
             return
         info = {"type": t, "d": d, "m": m, "flag": flag, "n_var": int(v.size)}
         if exc is not None:
-            ctx.violation(f"{label}:{t}:{fl(flag)}:{ctx.exc_key(exc)}", info)
+            ctx.violation(f"{label}:{t}:{fl(flag)}:{ctx.exc_key(exc)}" + tag, info)
             return
         lay = self.layout(t, c_sys, m, flag)
         if lay is None:
@@ -413,7 +440,7 @@ class Judge:
             return
         want = self.expected_stacked(t, d, m, flag, v, lay[0])
         scale = max(1.0, float(np.max(np.abs(v))) if v.size else 1.0)
-        self.cmp_stacked(label, t, d, m, flag, got_flat, want, scale, info)
+        self.cmp_stacked(label, t, d, m, flag, got_flat, want, scale, info, tag=tag)
 
     # -- object -> var direction
     def judge_to_var(self, label, t, c_sys, s, flag, got, exc=None):
@@ -1244,6 +1271,251 @@ def run_convert_case(ctx, hs, J, Q, t, shape, c_sys, rng, case):
         ctx.sample(dict(info0, part="convert", n_var=n, var_head=var[:6]))
 
 
+ATTR = {"State": "states", "Gate": "gates", "Povm": "povms", "MProcess": "mprocesses"}
+ORDER = ("State", "Gate", "Povm", "MProcess")
+
+
+def rand_options(rng):
+    """non-default values of the constructor options that do not select the parametrisation (no conversion may depend on
+    them); the physicality check stays off because the workload is not restricted to physical objects"""
+    return dict(is_physicality_required=False,
+                is_estimation_object=bool(rng.integers(0, 2)),
+                on_algo_eq_constraint=bool(rng.integers(0, 2)),
+                on_algo_ineq_constraint=bool(rng.integers(0, 2)),
+                mode_proj_order=str(rng.choice(["eq_ineq", "ineq_eq"])),
+                eps_proj_physical=[None, 1e-3, 1e-7][int(rng.integers(0, 3))],
+                eps_truncate_imaginary_part=[None, 1e-6][int(rng.integers(0, 2))])
+
+
+def raw_object(cls, t, c_sys, m, flag, rng, opts, mp_shape=None):
+    """object with arbitrary (non-physical, off the constraint) real entries, built with the given options"""
+    d = c_sys.dim
+    sc = 10.0 ** int(rng.integers(-2, 3))
+    arr = sc * rng.standard_normal(n_total(t, d, m)).reshape(obj_shape(t, d, m))
+    rawarg = arr if t in ("State", "Gate") else [np.ascontiguousarray(x) for x in arr]
+    kw = dict(opts, on_para_eq_constraint=flag)
+    if t == "MProcess" and mp_shape is not None:
+        kw["shape"] = mp_shape               # non-default outcome shape: the variables do not depend on it
+    return cls(c_sys, rawarg, **kw)
+
+
+def run_object_history(ctx, hs, J, Q, cs, t, shape, c_sys, rng, case):
+    """HISTORY / COMBINATION steps on single objects (own random stream; the base workload of the case is untouched).
+    Three live objects of one class and shape: a and b share configuration and options and differ in their data, c has
+    the other flag (and another outcome count), e (own stream) is of the same class on another system. They are asked alternately, asked again after other calls and after the
+    public setters, reached through copy() / generate_zero_obj() / generate_origin_obj() / arithmetic, and `a` is asked
+    again after set_zero(). Every library call is judged by the hooks against the object's CURRENT arrays; what only
+    the driver can know (the arrays and flag the object was built with, the vector returned earlier) is judged here."""
+    d = c_sys.dim
+    cls = J.classes[t]
+    flag = bool(rng.integers(0, 2))
+    m = int(rng.choice(MS)) if HAS_M[t] else 0
+    m_c = int(rng.choice([x for x in MS if x != m])) if HAS_M[t] else 0
+    kcfg = f"{t}:{fl(flag)}"
+    n, N = n_var(t, d, m, flag), n_total(t, d, m)
+    n_c = n_var(t, d, m_c, not flag)
+    mm = max(1, m)
+    fp = free_positions(t, d, m, flag)
+    opts = rand_options(rng)
+    info0 = {"type": t, "shape": shape, "d": d, "m": m, "flag": flag, "part": "object-history",
+             "options": {k: v for k, v in opts.items() if k != "is_physicality_required"}}
+    mp_shape = (2, 2) if (t == "MProcess" and m == 4 and rng.random() < 0.5) else None
+    try:
+        a = raw_object(cls, t, c_sys, m, flag, rng, opts, mp_shape)
+        b = raw_object(cls, t, c_sys, m, flag, rng, opts, mp_shape)
+        c = raw_object(cls, t, c_sys, m_c, not flag, rng, rand_options(rng))
+    except Exception as e:  # noqa: BLE001
+        ctx.violation(f"{t}.ctor:{ctx.exc_key(e)}:non-default-options", info0)
+        return
+    lay = J.layout(t, c_sys, m, flag)
+    if lay is None or not J.basis_fine(c_sys):
+        ctx.skip("history.no-layout")
+        return
+    # an object of the same class on ANOTHER system lives in the same process and is asked in between (own stream)
+    rng_e = ctx.rng(2)
+    c_sys_e = get_csys(J, cs, "S3" if shape == "S1" else "S1")
+    e_flag, e_m = bool(rng_e.integers(0, 2)), (int(rng_e.choice(MS)) if HAS_M[t] else 0)
+    try:
+        e = raw_object(cls, t, c_sys_e, e_m, e_flag, rng_e, rand_options(rng_e))
+    except Exception:
+        e = None
+
+    def ask_e(tag=""):
+        if e is None:
+            return
+        for nm, fn in ((f"{t}.to_var", e.to_var), (f"{t}.to_stacked_vector", e.to_stacked_vector)):
+            ok, val = ctx.attempt(fn)                   # hooked: judged against e's own arrays and flag
+            if not ok:
+                ctx.violation(f"{nm}:{t}:{fl(e_flag)}:{ctx.exc_key(val)}:other-system-in-between" + tag, info0)
+        ok, ve = ctx.attempt(e.to_var)
+        if ok:
+            ctx.attempt(cls.convert_var_to_stacked_vector, c_sys_e, ve, e_flag)
+            ctx.attempt(e.generate_from_var, ve)
+        prev, J.cur_dim = J.cur_dim, (c_sys_e.dim if t == "State" else None)   # State index converters get no c_sys
+        try:
+            ctx.attempt(e.calc_gradient, 0)
+        finally:
+            J.cur_dim = prev
+
+    s_a, s_b = (np.array(flat_raw(t, gen.raw_params(o), d)) for o in (a, b))
+    want_a, want_b = s_a[lay[0]], s_b[lay[0]]
+
+    def call(key, fn, *args, tag="", **kw):
+        ok, val = ctx.attempt(fn, *args, **kw)
+        if not ok:
+            ctx.violation(f"{key}:{kcfg}:{ctx.exc_key(val)}" + tag, info0)
+            return None
+        return val
+
+    def soft(fn, *args, **kw):
+        """calls whose failure is not this property's business (arithmetic, copy, setters): an exception ends the step"""
+        ok, val = ctx.attempt(fn, *args, **kw)
+        if not ok:
+            ctx.count("history.step-unavailable:" + type(val).__name__)
+            return None
+        return val
+
+    def judge_back(o2, s0, tag):
+        """obj -> var -> obj: free entries reproduced, implied entries are what the constraint implies"""
+        if o2 is None:
+            return
+        s2 = flat_raw(t, gen.raw_params(o2), d) if gen.type_of(o2) == t else None
+        if s2 is None or s2.size != N:
+            ctx.truth("roundtrip.obj-var-obj", False, key=f"roundtrip:obj->var->obj:{kcfg}:shape" + tag, info=info0)
+            return
+        ctx.num("roundtrip.obj-var-obj.free", relerr(s2[fp], s0[fp]), TOL_PASS, TOL_FAIL, key=f"roundtrip:obj->var->obj:{kcfg}:free-entries" + tag, info=info0)
+        on = fill_implied(t, d, m, s0.copy()) if flag else s0
+        ctx.num("roundtrip.obj-var-obj", relerr(s2, on, mm), TOL_PASS, TOL_FAIL, key=f"roundtrip:obj->var->obj:{kcfg}:object-on-constraint-not-reproduced" + tag, info=info0)
+
+    def judge_var(label, got, want, tag, oracle):
+        if got is None:
+            return
+        g = as_vec(got) if isinstance(got, np.ndarray) else None
+        if g is None or g.shape != want.shape:
+            ctx.truth(oracle, False, key=f"{label}:{kcfg}:length" + tag, info=dict(info0, got_len=None if g is None else int(g.size), want_len=int(want.size)))
+            return
+        ctx.num(oracle, relerr(g, want), TOL_PASS, TOL_FAIL, key=f"{label}:{kcfg}:values" + tag, info=info0)
+
+    # ---- first queries, alternating between the three objects
+    va = call(f"{t}.to_var", a.to_var)
+    vc = call(f"{t}.to_var", c.to_var)
+    vb = call(f"{t}.to_var", b.to_var)
+    ask_e()
+    sa = call(f"{t}.to_stacked_vector", a.to_stacked_vector)
+    if va is None or vb is None or vc is None or sa is None:
+        return
+    ctx.truth("to_var.length-is-reference-count", isinstance(va, np.ndarray) and va.shape == (n,), key=f"{t}.to_var:{kcfg}:length:non-default-options", info=info0)
+    ctx.truth("to_var.length-is-reference-count", isinstance(vc, np.ndarray) and vc.shape == (n_c,), key=f"{t}.to_var:{t}:{fl(not flag)}:length:non-default-options", info=info0)
+    va0, vb0, vc0, sa0 = (np.array(x, dtype=np.float64, copy=True) for x in (va, vb, vc, sa))
+    # ---- the vectors returned above (not copies) go back in, after the other objects were asked
+    judge_back(call("generate_from_var", a.generate_from_var, va, tag=":interleaved"), s_a, ":interleaved")
+    judge_back(call("generate_from_var", b.generate_from_var, vb, tag=":interleaved"), s_b, ":interleaved")
+    # ---- static forms, explicit and default flag argument alternating (default = True)
+    v_true, v_false = (va, vc) if flag else (vc, va)
+    call(f"{t}.convert_var_to_stacked_vector", cls.convert_var_to_stacked_vector, c_sys, v_true)
+    call(f"{t}.convert_var_to_stacked_vector", cls.convert_var_to_stacked_vector, c_sys, v_false, False)
+    sv = call(f"{t}.convert_var_to_stacked_vector", cls.convert_var_to_stacked_vector, c_sys, v_true)
+    call(f"{t}.convert_stacked_vector_to_var", cls.convert_stacked_vector_to_var, c_sys, sa, on_para_eq_constraint=flag)
+    if sv is not None:
+        call(f"{t}.convert_stacked_vector_to_var", cls.convert_stacked_vector_to_var, c_sys, sv)
+    # ---- gradients and index maps of a and c alternately (hooks judge)
+    J.cur_dim = d if t == "State" else None
+    try:
+        lf, fwd_a, li, inv_a = index_fns(Q, t, c_sys, a, flag)
+        _, fwd_c, _, inv_c = index_fns(Q, t, c_sys, c, not flag)
+        for _ in range(3):
+            i, j = int(rng.integers(0, n)), int(rng.integers(0, n_c))
+            ga = call(f"{t}.calc_gradient", a.calc_gradient, i)
+            call(f"{t}.calc_gradient", c.calc_gradient, j)
+            ia = call(lf, fwd_a, i)
+            ic = call(lf, fwd_c, j)
+            if ia is not None and norm_index(t, ia) is not None:
+                call(li, inv_a, norm_index(t, ia))
+            if ic is not None and norm_index(t, ic) is not None:
+                call(li, inv_c, norm_index(t, ic))
+            if ga is not None and gen.type_of(ga) == t:
+                call(f"{t}.to_var", ga.to_var)
+    finally:
+        J.cur_dim = None
+    # ---- objects returned by arithmetic (provenance only: their own conversions are judged by the hooks)
+    ops = [lambda: a + b, lambda: a - b, lambda: a * 2.5, lambda: 0.5 * a, lambda: a / 4.0]
+    for k in rng.permutation(len(ops))[:2]:
+        x = soft(ops[int(k)])
+        if x is not None and gen.type_of(x) == t:
+            xv = call(f"{t}.to_var", x.to_var)
+            if xv is not None:
+                call("generate_from_var", x.generate_from_var, xv)
+    # ---- copy(): the copy is the object
+    ac = soft(a.copy)
+    if ac is not None:
+        vac = call(f"{t}.to_var", ac.to_var, tag=":via-copy")
+        judge_var(f"{t}.to_var", vac, want_a, ":via-copy", "history.via-copy")
+        if vac is not None:
+            judge_back(call("generate_from_var", a.generate_from_var, vac, tag=":via-copy"), s_a, ":via-copy")
+    # ---- zero / origin objects live in the variable space of their parent (the library's projection closures use the zero
+    #      object as the template of generate_from_var, the minimisation algorithms start from origin.to_var())
+    z = soft(a.generate_zero_obj)
+    if z is not None:
+        zv = call(f"{t}.to_var", z.to_var, tag=":via-zero-obj")
+        judge_var(f"{t}.to_var", zv, np.zeros(n), ":via-zero-obj", "history.via-zero-obj")
+        judge_back(call("generate_from_var", z.generate_from_var, va, tag=":via-zero-obj"), s_a, ":via-zero-obj")
+    og = soft(a.generate_origin_obj)
+    if og is not None:
+        ov = call(f"{t}.to_var", og.to_var, tag=":via-origin-obj")
+        if ov is not None:
+            ctx.truth("history.via-origin-obj", isinstance(ov, np.ndarray) and ov.shape == (n,), key=f"{t}.to_var:{kcfg}:length:via-origin-obj", info=info0)
+            call("generate_from_var", og.generate_from_var, ov, tag=":via-origin-obj")
+    ask_e(":second-call")
+    # ---- public setters that do not touch the parameters
+    soft(a.set_mode_proj_order, "ineq_eq" if opts["mode_proj_order"] == "eq_ineq" else "eq_ineq")
+    soft(setattr, a, "eps_truncate_imaginary_part", 1e-7)
+    # ---- ask again: same answers, and the vectors handed out earlier still hold what they held
+    va1 = call(f"{t}.to_var", a.to_var, tag=":second-call")
+    judge_var(f"{t}.to_var", va1, want_a, ":second-call", "history.second-call-same-var")
+    judge_var(f"{t}.to_var", call(f"{t}.to_var", b.to_var, tag=":second-call"), want_b, ":second-call", "history.second-call-same-var")
+    judge_var(f"{t}.to_var", call(f"{t}.to_var", c.to_var, tag=":second-call"), vc0, ":second-call", "history.second-call-same-var")
+    judge_var(f"{t}.to_stacked_vector", call(f"{t}.to_stacked_vector", a.to_stacked_vector, tag=":second-call"), s_a, ":second-call", "history.second-call-same-var")
+    for nm, held, first in ((f"{t}.to_var", va, va0), (f"{t}.to_var", vb, vb0), (f"{t}.to_var", vc, vc0), (f"{t}.to_stacked_vector", sa, sa0)):
+        ctx.num("history.held-result-unchanged", relerr(held, first) if isinstance(held, np.ndarray) and held.shape == first.shape else float("inf"),
+                TOL_PASS, TOL_FAIL, key=f"{nm}:{t}:result-held-by-caller-changed-by-later-calls", info=info0)
+    if va1 is not None:
+        judge_back(call("generate_from_var", a.generate_from_var, va1, tag=":second-call"), s_a, ":second-call")
+    # ---- one template serves several calls: explicit options on one call must not stick to the next
+    tmpl = soft(make_template, Q, t, c_sys, m, flag)
+    if tmpl is not None:
+        v_other = rand_var(rng, n_var(t, d, m, not flag), "distinct")
+        call("generate_from_var", tmpl.generate_from_var, v_other, on_para_eq_constraint=not flag, is_estimation_object=not opts["is_estimation_object"],
+             on_algo_eq_constraint=opts["on_algo_eq_constraint"], on_algo_ineq_constraint=opts["on_algo_ineq_constraint"], mode_proj_order=opts["mode_proj_order"])
+        v_own = rand_var(rng, n, "gauss")
+        r = call("generate_from_var", tmpl.generate_from_var, v_own.copy(), tag=":re-used-template")
+        if r is not None and gen.type_of(r) == t:
+            ctx.truth("generate_from_var.flag", bool(r.on_para_eq_constraint) == flag, key=f"generate_from_var:{kcfg}:object-carries-other-flag:re-used-template", info=info0)
+            J.judge_from_var("generate_from_var", t, c_sys, v_own, flag, flat_raw(t, gen.raw_params(r), d), tag=":re-used-template")
+            judge_var(f"{t}.to_var", call(f"{t}.to_var", r.to_var, tag=":re-used-template"), v_own, ":re-used-template", "history.re-used-template")
+    # ---- public mutator: after set_zero() the object is the zero object (hooks: answers follow the current arrays)
+    ok, _e = ctx.attempt(a.set_zero)
+    if not ok:
+        ctx.count("history.step-unavailable:set_zero")
+    else:
+        cur = flat_raw(t, gen.raw_params(a), d)
+        if cur is not None and cur.size == N and not np.any(cur):
+            vz = call(f"{t}.to_var", a.to_var, tag=":after-set_zero")
+            judge_var(f"{t}.to_var", vz, np.zeros(n), ":after-set_zero", "history.after-set_zero")
+            judge_var(f"{t}.to_stacked_vector", call(f"{t}.to_stacked_vector", a.to_stacked_vector, tag=":after-set_zero"), np.zeros(N), ":after-set_zero", "history.after-set_zero")
+            J.cur_dim = d if t == "State" else None
+            try:
+                call(f"{t}.calc_gradient", a.calc_gradient, int(rng.integers(0, n)), tag=":after-set_zero")
+            finally:
+                J.cur_dim = None
+            if vz is not None:
+                call("generate_from_var", a.generate_from_var, vz, tag=":after-set_zero")
+            if ac is not None:      # the copy taken before is a separate object
+                judge_var(f"{t}.to_var", call(f"{t}.to_var", ac.to_var, tag=":via-copy"), want_a, ":via-copy:after-set_zero-of-original", "history.via-copy")
+        else:
+            ctx.count("history.set_zero-left-non-zero-arrays (not judged)")
+    ctx.nontrivial("object-history", t, shape, flag, m, s_a)
+
+
 def build_mix(ctx, J, Q, cs, rng):
     """random SetQOperations: 0-3 members per kind, mixed shapes / flags / outcome counts, all variable values distinct"""
     lists = {"State": [], "Gate": [], "Povm": [], "MProcess": []}
@@ -1404,6 +1676,265 @@ def run_setq_case(ctx, hs, J, Q, cs, rng, case):
         ctx.sample({"part": "setq", "members[type,shape,flag,m]": desc, "size_var_total": int(vt.size)})
 
 
+SMALL_SHAPES = {"State": ["S1", "S3", "S2"], "Povm": ["S1", "S1", "S3"], "Gate": ["S1", "S1", "S1", "S1", "S1", "S3"], "MProcess": ["S1"]}
+
+
+def build_small_mix(J, Q, cs, rng, base, like=None):
+    """small member lists (0-2 per kind, small systems, all variable values distinct and above `base`); with `like`
+    (configurations of another mix) the same number of members per kind, each with ANOTHER configuration, so that the
+    same member counts go with other variable counts. Members come from generate_from_var, some through copy()."""
+    lists = {t: [] for t in TYPES}
+    cfgs = {t: [] for t in TYPES}
+    for t in ORDER:
+        k = len(like[t]) if like is not None else int(rng.integers(0, 3))
+        for j in range(k):
+            for _ in range(8):
+                cfg = (str(rng.choice(SMALL_SHAPES[t])), bool(rng.integers(0, 2)), int(rng.integers(2, 5 if t == "Povm" else 4)) if HAS_M[t] else 0)
+                if like is None or cfg != like[t][j]:
+                    break
+            shape, flag, m = cfg
+            c_sys = get_csys(J, cs, shape)
+            n = n_var(t, c_sys.dim, m, flag)
+            var = base + 1.5 + rng.permutation(n).astype(np.float64)
+            base += n + 3
+            o = make_template(Q, t, c_sys, m, flag).generate_from_var(var)
+            if rng.random() < 0.3:
+                o = o.copy()
+            lists[t].append(o)
+            cfgs[t].append(cfg)
+    return lists, cfgs, base
+
+
+def mv_size(J, o):
+    mv = J.member_var(o)
+    return 0 if mv is None else int(mv.size)
+
+
+def prime_setq(ctx, s, lists, rng, J, nq=8):
+    """a handful of queries of every kind on a set (each judged by the hooks): the 'first query' of a history"""
+    ok, vt = ctx.attempt(s.var_total)
+    ok2, size = ctx.attempt(s.size_var_total)
+    if not (ok and ok2) or not is_int(size) or len(vt) != size:
+        return None         # the full passes report this
+    vt = np.asarray(vt, dtype=np.float64)
+    members = [(MODE[t], j, o) for t in ORDER for j, o in enumerate(lists[t])]
+    for _ in range(nq if vt.size else 0):
+        ctx.attempt(s.local_info_from_index_var_total, int(rng.integers(0, vt.size)))
+        mo, j, o = members[int(rng.integers(0, len(members)))]
+        mv = J.member_var(o)
+        if mv is not None and mv.size:
+            ctx.attempt(s.index_var_total_from_local_info, mo, j, int(rng.integers(0, mv.size)))
+    ctx.attempt(s.local_info_from_index_var_total, int(vt.size))
+    ctx.attempt(s.set_qoperations_from_var_total, vt.copy())
+    return vt
+
+
+def run_setq_history(ctx, hs, J, Q, cs, rng, case):
+    """HISTORY / COMBINATION steps on whole sets (own random stream, small sets): two live sets with the SAME number of
+    members per kind but other member sizes are asked one after the other (the first with a handful of queries, the
+    second completely) and then alternately; member lists of the first are replaced through the setters by lists of the
+    SAME length; the set returned by set_qoperations_from_var_total is itself asked everything (in half of the cases
+    after one of its lists has been replaced). All verdicts come from judge_setq and from the hooks, i.e. from the
+    oracles of the fresh case; keys of the later passes carry the name of the step."""
+    SetQ = J.SetQOperations
+    with hs.paused():
+        A, cfgA, base = build_small_mix(J, Q, cs, rng, 0.0)
+        if not any(A[t] for t in TYPES):
+            A, cfgA, base = build_small_mix(J, Q, cs, rng, 0.0)
+        B, cfgB, base = build_small_mix(J, Q, cs, rng, base, like=cfgA)
+    if not any(A[t] for t in TYPES):
+        ctx.count("setq.history:empty-mix-skipped")
+        return
+
+    def desc_of(cfgs):
+        return [[t, *cfgs[t][j]] for t in ORDER for j in range(len(cfgs[t]))]
+
+    descA, descB = desc_of(cfgA), desc_of(cfgB)
+    ok, sA = ctx.attempt(SetQ, states=list(A["State"]), gates=list(A["Gate"]), povms=list(A["Povm"]), mprocesses=list(A["MProcess"]))
+    if not ok:
+        ctx.violation(f"SetQOperations.ctor:{ctx.exc_key(sA)}", {"members": descA})
+        return
+    # the second set is built empty and filled through the setters in half of the cases
+    via_setters = rng.random() < 0.5
+    if via_setters:
+        ok, sB = ctx.attempt(SetQ)
+        for t in (ORDER if ok else ()):
+            ok2, e = ctx.attempt(setattr, sB, ATTR[t], list(B[t]))
+            if not ok2:
+                ctx.violation(f"SetQOperations.{ATTR[t]}.setter:{ctx.exc_key(e)}", {"members": descB})
+                return
+    else:
+        ok, sB = ctx.attempt(SetQ, states=list(B["State"]), gates=list(B["Gate"]), povms=list(B["Povm"]), mprocesses=list(B["MProcess"]))
+    if not ok:
+        ctx.violation(f"SetQOperations.ctor:{ctx.exc_key(sB)}", {"members": descB})
+        return
+    vtA = prime_setq(ctx, sA, A, rng, J)
+    if vtA is None:
+        ctx.count("setq.history:first-queries-failed (left to the full passes)")
+        return
+    vtB = judge_setq(ctx, sB, B, descB, rng, J, tag=":second-set-same-member-counts" + (":filled-through-setters" if via_setters else ""))
+    # single queries alternating between the two sets, keyword and positional arguments (hooks judge every call)
+    if vtB is not None and vtA.size and vtB.size:
+        memA = [(MODE[t], j, o) for t in ORDER for j, o in enumerate(A[t])]
+        memB = [(MODE[t], j, o) for t in ORDER for j, o in enumerate(B[t])]
+        for _ in range(10):
+            ctx.attempt(sA.local_info_from_index_var_total, int(rng.integers(0, vtA.size)))
+            ctx.attempt(sB.local_info_from_index_var_total, index_var_total=int(rng.integers(0, vtB.size)))
+            (moA, jA, oA), (moB, jB, oB) = memA[int(rng.integers(0, len(memA)))], memB[int(rng.integers(0, len(memB)))]
+            nA, nB = mv_size(J, oA), mv_size(J, oB)
+            if nA:
+                ctx.attempt(sA.index_var_total_from_local_info, mode=moA, index_operations=jA, index_var_local=int(rng.integers(0, nA)))
+            if nB:
+                ctx.attempt(sB.index_var_total_from_local_info, moB, jB, int(rng.integers(0, nB)))
+    if vtB is not None:
+        ctx.nontrivial("setq-history:twin", descA, descB, vtB)
+    # lists replaced by lists of the same length (other member sizes)
+    kinds = [t for t in ORDER if A[t] and rng.random() < 0.6] or [[t for t in ORDER if A[t]][0]]
+    mixed, cfgM = dict(A), dict(cfgA)
+    # the very same questions right before and right after the setters (an answer remembered from the last call)
+    k0 = int(rng.integers(0, vtA.size)) if vtA.size else 0
+    i0 = int(rng.integers(0, max(1, min(mv_size(J, A[kinds[0]][0]), mv_size(J, B[kinds[0]][0])))))
+    same = [(sA.local_info_from_index_var_total, (k0,)), (sA.index_var_total_from_local_info, (MODE[kinds[0]], 0, i0)), (sA.size_var_total, ()), (sA.var_total, ())]
+    for fn, args in same:
+        ctx.attempt(fn, *args)
+    for t in kinds:
+        ok, e = ctx.attempt(setattr, sA, ATTR[t], list(B[t]))
+        if not ok:
+            ctx.violation(f"SetQOperations.{ATTR[t]}.setter:{ctx.exc_key(e)}", {"members": descA, "new": descB})
+            return
+        mixed[t], cfgM[t] = B[t], cfgB[t]
+        J.vt_cache = None       # the hooks' reference var_total is memoised per set object
+    for fn, args in same:       # judged by the hooks against the CURRENT members (k0 may now be out of range: must raise)
+        ctx.attempt(fn, *args)
+    descM = desc_of(cfgM)
+    ctx.count("setq.history:same-length-lists-replaced:" + "+".join(ATTR[t] for t in kinds))
+    vtM = judge_setq(ctx, sA, mixed, descM, rng, J, tag=":after-same-length-list-replaced")
+    if vtM is None:
+        return
+    ctx.nontrivial("setq-history:same-length", descM, vtM)
+    # the set returned by the rebuild is a set like any other
+    fresh = base + 1.5 + rng.permutation(vtM.size).astype(np.float64)
+    ok, s2 = ctx.attempt(sA.set_qoperations_from_var_total, fresh)      # judged by the hook
+    if not ok or not isinstance(s2, SetQ):
+        return
+    try:
+        L2 = {t: list(s2.qoperations(MODE[t])) for t in TYPES}
+    except Exception:
+        return
+    if rng.random() < 0.5:
+        judge_setq(ctx, s2, L2, descM, rng, J, tag=":rebuilt-set")
+        return
+    for k in (0, vtM.size - 1):         # asked once before the setter
+        ctx.attempt(s2.local_info_from_index_var_total, k)
+    t = kinds[int(rng.integers(0, len(kinds)))]
+    ok, e = ctx.attempt(setattr, s2, ATTR[t], list(A[t]))
+    if not ok:
+        ctx.violation(f"SetQOperations.{ATTR[t]}.setter:{ctx.exc_key(e)}", {"members": descM})
+        return
+    J.vt_cache = None
+    L2[t] = A[t]
+    cfg2 = dict(cfgM)
+    cfg2[t] = cfgA[t]
+    judge_setq(ctx, s2, L2, desc_of(cfg2), rng, J, tag=":rebuilt-set:after-member-list-replaced")
+
+
+def ask_tomography(ctx, J, rng, rec, tag):
+    """everything the property says about one tomography object, asked (again) with the step name `tag` in the keys:
+    num_variables is the count of the configuration it was built for, a variable vector of that length turned into an
+    object by the tomography and back is reproduced, the empty estimation object / its origin object (the start point
+    of the minimisation algorithms) / the operation set of the tomography have variable vectors of that length"""
+    tomo, cn, t, c_sys, flag, m, want = rec["tomo"], rec["cn"], rec["t"], rec["c_sys"], rec["flag"], rec["m"], rec["want"]
+    d = c_sys.dim
+    kfl = f"{cn}.num_variables:{fl(flag)}"
+    info0 = {"class": cn, "shape": rec["shape"], "d": d, "m": m, "flag": flag, "options": rec["options"], "history": tag}
+    ok, nv = ctx.attempt(lambda: tomo.num_variables)            # hooked
+    if not ok:
+        ctx.violation(f"{kfl}:{ctx.exc_key(nv)}" + tag, info0)
+        return
+    ctx.truth("num_variables.requested-configuration", is_int(nv) and int(nv) == want, key=f"{kfl}:differs-from-count-of-requested-configuration" + tag,
+              info=dict(info0, got=repr(nv), want=want))
+    for k in range(2):      # two different vectors in a row: the second answer must be for the second vector
+        var = rand_var(rng, want, "distinct" if k == 0 else "gauss")
+        ok, o = ctx.attempt(tomo.convert_var_to_qoperation, var.copy())
+        if not ok:
+            ctx.violation(f"{cn}.convert_var_to_qoperation:{fl(flag)}:{ctx.exc_key(o)}" + tag, info0)
+            continue
+        if gen.type_of(o) != t:
+            ctx.truth("num_variables.var-to-object-type", False, key=f"{cn}.convert_var_to_qoperation:{fl(flag)}:wrong-type" + tag, info=info0)
+            continue
+        J.judge_from_var(f"{cn}.convert_var_to_qoperation", t, c_sys, var, flag, flat_raw(t, gen.raw_params(o), d), tag=tag)
+        ok, back = ctx.attempt(o.to_var)                        # hooked
+        if ok:
+            ctx.num("roundtrip.var-obj-var", relerr(back, var), TOL_PASS, TOL_FAIL, key=f"roundtrip:var->obj->var:{t}:{fl(flag)}:via-tomography" + tag, info=info0)
+    ok, e = ctx.attempt(tomo.generate_empty_estimation_obj_with_setting_info)
+    if ok and gen.type_of(e) == t:
+        ok, ev = ctx.attempt(e.to_var)                          # hooked
+        if ok:
+            ctx.truth("num_variables.equals-len-to_var", len(ev) == nv, key=f"{kfl}:differs-from-len-to_var:of-empty-estimation-object" + tag, info=dict(info0, got=repr(nv), len_to_var=len(ev)))
+        ok, og = ctx.attempt(e.generate_origin_obj)
+        if ok and gen.type_of(og) == t:
+            ok, ov = ctx.attempt(og.to_var)                     # hooked
+            if ok:
+                ctx.truth("num_variables.equals-len-to_var", len(ov) == nv, key=f"{kfl}:differs-from-len-to_var:of-origin-object" + tag, info=dict(info0, got=repr(nv), len_to_var=len(ov)))
+    ok, sq = ctx.attempt(lambda: tomo.set_qoperations)
+    if ok and isinstance(sq, J.SetQOperations):
+        ok1, sz = ctx.attempt(sq.size_var_total)
+        ok2, vt = ctx.attempt(sq.var_total)
+        if ok1 and ok2:
+            ctx.truth("num_variables.equals-len-to_var", is_int(sz) and sz == nv and len(vt) == nv, key=f"{kfl}:differs-from-size-of-its-operation-set" + tag,
+                      info=dict(info0, got=repr(nv), size_var_total=repr(sz), len_var_total=len(vt)))
+            if 0 < len(vt) <= 300:       # the set the library built is a set like any other: a few index queries (hooks judge)
+                for _ in range(4):
+                    ctx.attempt(sq.local_info_from_index_var_total, int(rng.integers(0, len(vt))))
+                ctx.attempt(sq.local_info_from_index_var_total, len(vt))
+
+
+def numvar_history(ctx, hs, J, rng, pool, CLS, TT, cn, shape, c_sys, flag, m, tomo, states, povms):
+    """HISTORY / COMBINATION steps of the num_variables part (own random stream): the case's tomography is asked
+    through the objects it hands out, a SIBLING of the same class and shape but the other flag (other outcome count,
+    non-default constructor options, an explicit schedule list) is built and asked while the first one is alive, the
+    first one is asked again, and tomography objects of earlier cases of the shard are asked again."""
+    t = TT[cn]
+    d = c_sys.dim
+    rec = {"tomo": tomo, "cn": cn, "t": t, "c_sys": c_sys, "shape": shape, "flag": flag, "m": m, "want": n_var(t, d, m, flag), "options": "default"}
+    ask_tomography(ctx, J, rng, rec, ":via-tomography")
+    # sibling
+    flag2 = not flag
+    m2 = int(rng.choice([x for x in MS if x != m])) if HAS_M[t] else 0
+    opts = dict(is_estimation_object=bool(rng.integers(0, 2)), eps_proj_physical=[None, 1e-3][int(rng.integers(0, 2))],
+                eps_truncate_imaginary_part=[None, 1e-6][int(rng.integers(0, 2))], seed_data=[None, 7][int(rng.integers(0, 2))])
+    if rng.random() < 0.5:      # explicit schedule list (a permuted subset with repetition is still a valid schedule list)
+        if cn == "StandardQst":
+            full = [[("state", 0), ("povm", i)] for i in range(len(povms))]
+        elif cn == "StandardPovmt":
+            full = [[("state", i), ("povm", 0)] for i in range(len(states))]
+        elif cn == "StandardQpt":
+            full = [[("state", i), ("gate", 0), ("povm", j)] for i in range(len(states)) for j in range(len(povms))]
+        else:
+            full = [[("state", i), ("mprocess", 0), ("povm", j)] for i in range(len(states)) for j in range(len(povms))]
+        opts["schedules"] = [full[int(k)] for k in rng.permutation(len(full))]
+    pos = {"StandardQst": (povms,), "StandardPovmt": (states, m2), "StandardQpt": (states, povms), "StandardQmpt": (states, povms, m2)}[cn]
+    ok, sib = ctx.attempt(CLS[cn], *pos, on_para_eq_constraint=flag2, **opts)
+    jopts = {k: (v if k != "schedules" else "explicit-list") for k, v in opts.items()}
+    if not ok:
+        # constructor options outside the property: a rejection is recorded, not judged
+        ctx.count(f"numvar.history:sibling-rejected:{type(sib).__name__}")
+    else:
+        rec2 = {"tomo": sib, "cn": cn, "t": t, "c_sys": c_sys, "shape": shape, "flag": flag2, "m": m2, "want": n_var(t, d, m2, flag2), "options": jopts}
+        ask_tomography(ctx, J, rng, rec2, ":sibling-other-flag")
+        ctx.nontrivial("numvar-history:sibling", cn, shape, flag2, m2, str(sorted(jopts.items(), key=str)))
+    # the first one again, after the sibling was built and asked
+    ask_tomography(ctx, J, rng, rec, ":second-call")
+    # objects of earlier cases again
+    for k in (rng.permutation(len(pool))[:2] if pool else []):
+        ask_tomography(ctx, J, rng, pool[int(k)], ":re-used-object")
+    pool.append(rec)
+    if ok:
+        pool.append(rec2)
+    while len(pool) > 10:
+        pool.pop(int(rng.integers(0, len(pool))))
+
+
 def run_numvar(ctx, hs, J, Q, cs):
     from quara.protocol.qtomography.standard.standard_povmt import StandardPovmt
     from quara.protocol.qtomography.standard.standard_qmpt import StandardQmpt
@@ -1413,6 +1944,8 @@ def run_numvar(ctx, hs, J, Q, cs):
     cfgs = [(cn, s, f, m) for cn in ("StandardQst", "StandardPovmt", "StandardQpt", "StandardQmpt") for s in SHAPE_NAMES
             for f in (True, False) for m in (MS if cn in ("StandardPovmt", "StandardQmpt") else [0])]
     TT = {"StandardQst": "State", "StandardPovmt": "Povm", "StandardQpt": "Gate", "StandardQmpt": "MProcess"}
+    CLS = {"StandardQst": StandardQst, "StandardPovmt": StandardPovmt, "StandardQpt": StandardQpt, "StandardQmpt": StandardQmpt}
+    pool = []        # tomography objects of earlier cases stay alive and are asked again (HISTORY)
     for ci in ctx.cases(len(cfgs)):
         cn, shape, flag, m = cfgs[ci]
         rng = ctx.rng()
@@ -1448,6 +1981,7 @@ def run_numvar(ctx, hs, J, Q, cs):
         ctx.nontrivial("numvar", cn, shape, flag, m)
         if ci < 2:
             ctx.sample(dict(info0, part="num_variables", num_variables=int(nv) if is_int(nv) else repr(nv), reference=want))
+        numvar_history(ctx, hs, J, ctx.rng(1), pool, CLS, TT, cn, shape, c_sys, flag, m, tomo, states, povms)
 
 
 def run_shard(ctx):
@@ -1477,6 +2011,7 @@ def run_shard(ctx):
             c_sys = get_csys(J, cs, shape)
             for i in ctx.cases(p["n"]):
                 run_convert_case(ctx, hs, J, Q, t, shape, c_sys, ctx.rng(), i)
+                run_object_history(ctx, hs, J, Q, cs, t, shape, c_sys, ctx.rng(1), i)
             mod = J.mods[t].__name__.split(".")[-1]
             rn = RAWNAME[t]
             req = [f"{t}.to_var", f"{t}.to_stacked_vector", f"{t}.convert_var_to_stacked_vector", f"{t}.convert_stacked_vector_to_var",
@@ -1484,6 +2019,7 @@ def run_shard(ctx):
         elif kind == "setq":
             for i in ctx.cases(p["n"]):
                 run_setq_case(ctx, hs, J, Q, cs, ctx.rng(), i)
+                run_setq_history(ctx, hs, J, Q, cs, ctx.rng(1), i)
             req = ["SetQOperations.index_var_total_from_local_info", "SetQOperations.local_info_from_index_var_total",
                    "SetQOperations.set_qoperations_from_var_total"]
         elif kind == "numvar":
